@@ -282,6 +282,20 @@ func (pe *PEngine) callRange(n *vn) (*big.Int, *big.Int, bool) {
 			}
 			rv := cpf.get(ret.Results[0])
 			l, h, ok := valueRange(rv)
+			// a clamp: the value returned is merged from constants and from values just compared with a
+			// constant on the way in (if n > max { n = max }; return int(n))
+			if cl, ch, isClamp := clampRange(ret.Results[0]); isClamp {
+				if !ok {
+					l, h, ok = cl, ch, true
+				} else {
+					if cl.Cmp(l) > 0 {
+						l = cl
+					}
+					if ch.Cmp(h) < 0 {
+						h = ch
+					}
+				}
+			}
 			if !ok {
 				pe.inCallRange[callee] = false
 				lo, hi = nil, nil
@@ -1414,4 +1428,69 @@ func translateVN(cpf *pfunc, a *vn, args []ssa.Value, at ppos) *vn {
 		return cpf.loadAt(targs[0], nil, a.typ, at)
 	}
 	return nil
+}
+
+// clampRange: v is (a conversion of) a phi of unsigned values each of whose incoming edges carries either a
+// constant or a value that the edge's branch has just bounded above by a constant (the false side of
+// x > K / x >= K, the true side of x <= K / x < K). The range is [0, max bound]; the conversion to a wider or
+// equal signed type keeps it because the bound is small.
+func clampRange(v ssa.Value) (lo, hi *big.Int, ok bool) {
+	for {
+		cv, isCv := v.(*ssa.Convert)
+		if !isCv {
+			break
+		}
+		v = cv.X
+	}
+	ph, isPh := v.(*ssa.Phi)
+	if !isPh {
+		return nil, nil, false
+	}
+	b, isB := ph.Type().Underlying().(*types.Basic)
+	if !isB || b.Info()&types.IsUnsigned == 0 {
+		return nil, nil, false
+	}
+	hi = big.NewInt(0)
+	for i, e := range ph.Edges {
+		if k, isK := constInt(e); isK {
+			if k.Sign() < 0 {
+				return nil, nil, false
+			}
+			if k.Cmp(hi) > 0 {
+				hi = k
+			}
+			continue
+		}
+		pred := ph.Block().Preds[i]
+		iff, isIf := pred.Instrs[len(pred.Instrs)-1].(*ssa.If)
+		if !isIf {
+			return nil, nil, false
+		}
+		bo, isBo := iff.Cond.(*ssa.BinOp)
+		if !isBo || bo.X != e {
+			return nil, nil, false
+		}
+		k, isK := constInt(bo.Y)
+		if !isK {
+			return nil, nil, false
+		}
+		onTrue := pred.Succs[0] == ph.Block()
+		onFalse := pred.Succs[1] == ph.Block()
+		var bound *big.Int
+		switch {
+		case bo.Op == token.GTR && onFalse && !onTrue, bo.Op == token.LEQ && onTrue && !onFalse:
+			bound = k
+		case bo.Op == token.GEQ && onFalse && !onTrue, bo.Op == token.LSS && onTrue && !onFalse:
+			bound = new(big.Int).Sub(k, big.NewInt(1))
+		default:
+			return nil, nil, false
+		}
+		if bound.Cmp(hi) > 0 {
+			hi = bound
+		}
+	}
+	if hi.BitLen() > 31 {
+		return nil, nil, false
+	}
+	return big.NewInt(0), hi, true
 }
